@@ -70,6 +70,10 @@ where
     let mut ie = F::new_interval_eval();
     let mut fe = F::new_float_slice_eval();
     let mut ge = F::new_grad_slice_eval();
+    // shape-level wrappers keep their own scratch columns
+    let mut s_fe = Shape::<F>::new_float_slice_eval();
+    let mut s_ge = Shape::<F>::new_grad_slice_eval();
+    let mut s_pe = Shape::<F>::new_point_eval();
     let mut workspace = F::Workspace::default();
     let mut spare_fn_storage: Vec<F::Storage> = vec![];
     let mut spare_tape_storage: Vec<F::TapeStorage> = vec![];
@@ -94,7 +98,7 @@ where
         let ik = if rng.chance(0.3) { Inputs::Hostile } else { Inputs::Tame };
         let by_slot = prog::gen_inputs(rng, fns[k].n_vars, ik);
         let input: Vec<f32> = fns[k].slot.iter().map(|&s| by_slot[s]).collect();
-        let step = rng.below(10);
+        let step = rng.below(12);
         match step {
             // ---------------- point evaluation with the long-lived evaluator
             0 | 1 => {
@@ -239,6 +243,80 @@ where
                 } else {
                     fns.push(e);
                 }
+            }
+            // ---------------- shape-level evaluators reused across tapes with
+            // different variable counts and sample counts
+            10 | 11 => {
+                if fns[k].real.output_count() != 1 {
+                    continue;
+                }
+                let len = *rng.pick(&[0usize, 1, 2, 5, 8, 9, 17]);
+                step_log.push(format!("shape-level bulk/point eval fn{k} len {len}"));
+                let shape = Shape::new_raw(fns[k].real.clone());
+                let sshape = Shape::new_raw(fns[k].shadow.clone());
+                let mut sv: fidget_core::shape::ShapeVars<f32> = fidget_core::shape::ShapeVars::new();
+                for (var, idx) in fns[k].real.vars().iter() {
+                    if let fidget_core::var::Var::V(i) = var {
+                        sv.insert(i, input[idx]);
+                    }
+                }
+                let xs: Vec<f32> = (0..len).map(|_| rng.uniform(-2.0, 2.0) as f32).collect();
+                let ys: Vec<f32> = (0..len).map(|_| rng.uniform(-2.0, 2.0) as f32).collect();
+                let zs: Vec<f32> = (0..len).map(|_| rng.uniform(-2.0, 2.0) as f32).collect();
+                child::note(&format!("C10 {name} shape-level bulk eval | step {} len {len}", step_log.len()));
+                let ft = shape.float_slice_tape(take_tape_storage(rng, &mut spare_tape_storage, st));
+                let got = guarded(|| s_fe.eval_with_vars(&ft, &xs, &ys, &zs, &sv).map(|o| o.to_vec()));
+                let sft = sshape.float_slice_tape(Default::default());
+                let want = guarded(|| Shape::<F>::new_float_slice_eval().eval_with_vars(&sft, &xs, &ys, &zs, &sv).map(|o| o.to_vec()));
+                st.inc("steps_shape_level_eval");
+                match (got, want) {
+                    (Ok(Ok(a)), Ok(Ok(b))) => {
+                        if a.len() != b.len() || a.iter().zip(b.iter()).any(|(x, y)| !same_bits(*x, *y)) {
+                            return Err(viol("shape_bulk_values", format!("reused shape-level float-slice evaluator (len {len}) disagrees with a fresh one"), &step_log));
+                        }
+                    }
+                    (Ok(Err(_)), Ok(Err(_))) => (),
+                    (Err(pi), Ok(_)) => {
+                        return Err(viol("shape_bulk_panic", format!("reused shape-level float-slice evaluator panicked at {} ({}) where a fresh one does not", pi.site(), pi.msg), &step_log));
+                    }
+                    _ => return Err(viol("shape_bulk_outcome", "reused and fresh shape-level float-slice evaluators differ in outcome".into(), &step_log)),
+                }
+                spare_tape_storage.extend(ft.recycle());
+                let gx: Vec<Grad> = xs.iter().map(|v| Grad::new(*v, 1.0, 0.0, 0.0)).collect();
+                let gy: Vec<Grad> = ys.iter().map(|v| Grad::new(*v, 0.0, 1.0, 0.0)).collect();
+                let gz: Vec<Grad> = zs.iter().map(|v| Grad::new(*v, 0.0, 0.0, 1.0)).collect();
+                let gt = shape.grad_slice_tape(take_tape_storage(rng, &mut spare_tape_storage, st));
+                let got = guarded(|| s_ge.eval_with_vars(&gt, &gx, &gy, &gz, &sv).map(|o| o.to_vec()));
+                let sgt = sshape.grad_slice_tape(Default::default());
+                let want = guarded(|| Shape::<F>::new_grad_slice_eval().eval_with_vars(&sgt, &gx, &gy, &gz, &sv).map(|o| o.to_vec()));
+                match (got, want) {
+                    (Ok(Ok(a)), Ok(Ok(b))) => {
+                        if a.len() != b.len() || a.iter().zip(b.iter()).any(|(x, y)| !g_eq(*x, *y)) {
+                            return Err(viol("shape_grad_values", format!("reused shape-level grad-slice evaluator (len {len}) disagrees with a fresh one"), &step_log));
+                        }
+                    }
+                    (Ok(Err(_)), Ok(Err(_))) => (),
+                    (Err(pi), Ok(_)) => {
+                        return Err(viol("shape_grad_panic", format!("reused shape-level grad-slice evaluator panicked at {} ({}) where a fresh one does not", pi.site(), pi.msg), &step_log));
+                    }
+                    _ => return Err(viol("shape_grad_outcome", "reused and fresh shape-level grad-slice evaluators differ in outcome".into(), &step_log)),
+                }
+                spare_tape_storage.extend(gt.recycle());
+                // point wrapper
+                let pt = shape.point_tape(take_tape_storage(rng, &mut spare_tape_storage, st));
+                let got = guarded(|| s_pe.eval_with_vars(&pt, 0.25f32, -0.5f32, 1.5f32, &sv).map(|r| r.0));
+                let spt = sshape.point_tape(Default::default());
+                let want = guarded(|| Shape::<F>::new_point_eval().eval_with_vars(&spt, 0.25f32, -0.5f32, 1.5f32, &sv).map(|r| r.0));
+                match (got, want) {
+                    (Ok(Ok(a)), Ok(Ok(b))) => {
+                        if !same_bits(a, b) {
+                            return Err(viol("shape_point_values", "reused shape-level point evaluator disagrees with a fresh one".into(), &step_log));
+                        }
+                    }
+                    (Ok(Err(_)), Ok(Err(_))) => (),
+                    _ => return Err(viol("shape_point_outcome", "reused and fresh shape-level point evaluators differ in outcome".into(), &step_log)),
+                }
+                spare_tape_storage.extend(pt.recycle());
             }
             // ---------------- render-handle sequences (cache hit and miss)
             _ => {
@@ -393,7 +471,7 @@ impl Prop for C10 {
         }
     }
     fn finish(&self, st: &mut Stats, _tier: Tier) {
-        for k in ["steps_point_eval", "steps_interval_eval", "steps_float_slice_eval", "steps_grad_slice_eval", "steps_simplify"] {
+        for k in ["steps_point_eval", "steps_interval_eval", "steps_float_slice_eval", "steps_grad_slice_eval", "steps_simplify", "steps_shape_level_eval"] {
             if st.get(k) < 1000 {
                 st.inconclusive.push(format!("{k} = {} (floor 1000)", st.get(k)));
             }
